@@ -4,7 +4,12 @@ import (
 	"fmt"
 	"go/token"
 	"go/types"
+	"os"
+	"path/filepath"
+	"reflect"
+	"regexp"
 	"sort"
+	"strconv"
 	"strings"
 
 	"adgverif/an"
@@ -28,24 +33,33 @@ func init() {
 				"copy QueryLogEnabled and IPLogEnabled from the fields of the same name, and newRequestInfo re-initialises every " +
 				"field of the pooled request information on every path, so a request never inherits the previous request's profile.",
 			NotCovered: "JSON well-formedness of arbitrary field contents (encoding/json trusted); atomicity of O_APPEND writes in the kernel.",
-			Rules: map[string]string{"C15-R18": "a $dnsrewrite verdict is stamped with the ID of the list it came from (composite filter table, shared with C02-R3)", "C15-R19": "newFilteringContext resets every field of the pooled filtering context, so no request is resolved or logged under an earlier request's rewritten name (shared with C01-R15)", "C15-R16": "setFilteredResponse answers by the request verdict whenever there is one, which is also the verdict the log entry names (shared with C02-R6)", "C15-R17": "responseData reports the response's own response code (all bits, extended codes included) and AD flag", "C15-R15": "newDeviceFinder: the real finder exactly when the server group has profiles enabled", "C15-RC": "class rules (error chains, shadowed results, character classes, crossed arguments, pool constructors, array pools, loop completeness, loop-carried buffers, replacing setters, complete clones, Grow arithmetic, pooled-buffer escape, sorted searches, fresh decode targets, per-iteration objects, whole-message copies, codec guards) over the packages this property rests on", "C15-R14": "profile lookups by linked / dedicated IP re-check the device's current address; isBlockedByAccess returns the profile's verdict (shared with C14-R4, C10-R1)", "C15-R13": "no named (non-error) result is hidden by a same-typed short variable declaration and then returned by name outside that scope (typed-AST rule over the whole repository)", "C15-R12": "no whole-struct copy of a dns.Msg (the copy shares Question and the RR slices with the logged request); pool constructors build fresh buffers", "C15-R11": "clone methods of filtering results copy every field (list and rule IDs are what gets logged)", "C15-R1": "recordQueryInfo gates and entry provenance", "C15-R2": "sole callers of log/billing sinks; record only after the write",
+			Rules: map[string]string{"C15-R20": "the query-log entry and its documentation doc/querylog.md agree: the json tags of querylog.jsonlEntry are exactly the documented property names, the result codes are the documented values of `f`, and the protocol constants are the documented values of `p`", "C15-R18": "a $dnsrewrite verdict is stamped with the ID of the list it came from (composite filter table, shared with C02-R3)", "C15-R19": "newFilteringContext resets every field of the pooled filtering context, so no request is resolved or logged under an earlier request's rewritten name (shared with C01-R15)", "C15-R16": "setFilteredResponse answers by the request verdict whenever there is one, which is also the verdict the log entry names (shared with C02-R6)", "C15-R17": "responseData reports the response's own response code (all bits, extended codes included) and AD flag", "C15-R15": "newDeviceFinder: the real finder exactly when the server group has profiles enabled", "C15-RC": "class rules (error chains, shadowed results, character classes, crossed arguments, pool constructors, array pools, loop completeness, loop-carried buffers, replacing setters, complete clones, Grow arithmetic, pooled-buffer escape, sorted searches, fresh decode targets, per-iteration objects, whole-message copies, codec guards) over the packages this property rests on", "C15-R14": "profile lookups by linked / dedicated IP re-check the device's current address; isBlockedByAccess returns the profile's verdict (shared with C14-R4, C10-R1)", "C15-R13": "no named (non-error) result is hidden by a same-typed short variable declaration and then returned by name outside that scope (typed-AST rule over the whole repository)", "C15-R12": "no whole-struct copy of a dns.Msg (the copy shares Question and the RR slices with the logged request); pool constructors build fresh buffers", "C15-R11": "clone methods of filtering results copy every field (list and rule IDs are what gets logged)", "C15-R1": "recordQueryInfo gates and entry provenance", "C15-R2": "sole callers of log/billing sinks; record only after the write",
 				"C15-R3": "single append write from the pooled buffer", "C15-R4": "result switches exhaustive", "C15-R5": "every field of the entry is written",
 				"C15-R6": "the logging opt-in flags are copied name-to-name by the backend and file-cache conversions; the recycled request-information object (which carries the profile attribution) is fully re-initialised"},
 		}})
 }
 
 func runC15(c *an.Ctx) {
+	// ---- R20: the entry format is the documented one
+	c.Floor("C15-R20", 3)
+	c15DocumentedFormat(c, "C15-R20")
 	classSweep(c, "C15")
 	// ---- R18: a verdict names the list its rule came from (composite tables, shared with C02-R3); R19: the pooled
 	// filtering context starts every request empty (shared with C01-R15)
 	c.Floor("C15-R18", 1)
-	c.Borrow("C15-R18", runC02, func(o an.Obligation) bool { return o.Rule == "C02-R3" && strings.Contains(o.Key, "filterReqWithRuleLists") })
+	c.Borrow("C15-R18", runC02, func(o an.Obligation) bool {
+		return o.Rule == "C02-R3" && strings.Contains(o.Key, "filterReqWithRuleLists")
+	})
 	c.Floor("C15-R19", 1)
-	c.Borrow("C15-R19", runC01, func(o an.Obligation) bool { return o.Rule == "C01-R15" && strings.Contains(o.Key, "newFilteringContext") })
+	c.Borrow("C15-R19", runC01, func(o an.Obligation) bool {
+		return o.Rule == "C01-R15" && strings.Contains(o.Key, "newFilteringContext")
+	})
 	// ---- R16: the verdict that is logged is the verdict that shaped the answer (request verdict first; shared with C02-R6);
 	// R17: the response code and the AD flag in the entry are the response's own, unmasked
 	c.Floor("C15-R16", 1)
-	c.Borrow("C15-R16", runC02, func(o an.Obligation) bool { return o.Rule == "C02-R6" && strings.Contains(o.Key, "setFilteredResponse") })
+	c.Borrow("C15-R16", runC02, func(o an.Obligation) bool {
+		return o.Rule == "C02-R6" && strings.Contains(o.Key, "setFilteredResponse")
+	})
 	c.Floor("C15-R17", 1)
 	decide(c, "C15-R17", "dnssvc/internal/mainmw.(*Middleware).responseData", an.DecideCfg{
 		Dom: an.Domain{"p2": an.NilOrNot, "iperr": an.Bools},
@@ -506,7 +520,6 @@ func checkSumSwitch(c *an.Ctx, rule, fnKey, iface string) {
 	}
 }
 
-
 // c15DeviceFinderGate: a server gets the real device finder exactly when its
 // server group has profiles enabled; the servers of a group without profiles
 // never attribute (and so never log or bill) a query.
@@ -539,4 +552,91 @@ func c15DeviceFinderGate(c *an.Ctx) {
 			return ""
 		},
 	})
+}
+
+// c15DocumentedFormat: the consumers of the query log read it by the names and
+// numbers of doc/querylog.md.  The json tags of querylog.jsonlEntry are exactly
+// the documented property names; the values of the resultCode constants are
+// the documented values of "f"; the values of the dnsserver protocol constants
+// are the documented values of "p".
+func c15DocumentedFormat(c *an.Ctx, rule string) {
+	data, err := os.ReadFile(filepath.Join(c.Prog.Repo, "doc", "querylog.md"))
+	if err != nil {
+		c.Und(rule, "doc/querylog.md", token.NoPos, "%v", err)
+		return
+	}
+	doc := string(data)
+	names := map[string]bool{}
+	for _, m := range regexp.MustCompile(`id="properties-([a-z]+)"`).FindAllStringSubmatch(doc, -1) {
+		names[m[1]] = true
+	}
+	// documented values of a property: the list items "- `N`:" between its anchor and the next anchor
+	values := func(prop string) map[int64]bool {
+		vs := map[int64]bool{}
+		i := strings.Index(doc, `id="properties-`+prop+`"`)
+		if i < 0 {
+			return vs
+		}
+		rest := doc[i+1:]
+		if j := strings.Index(rest, `id="properties-`); j >= 0 {
+			rest = rest[:j]
+		}
+		for _, m := range regexp.MustCompile("(?m)^\\s*- `([0-9]+)`:").FindAllStringSubmatch(rest, -1) {
+			n, _ := strconv.ParseInt(m[1], 10, 64)
+			vs[n] = true
+		}
+		return vs
+	}
+	setStr := func(m map[string]bool) string {
+		var ks []string
+		for k := range m {
+			ks = append(ks, k)
+		}
+		sort.Strings(ks)
+		return strings.Join(ks, " ")
+	}
+	setInt := func(m map[int64]bool) string {
+		var ks []int
+		for k := range m {
+			ks = append(ks, int(k))
+		}
+		sort.Ints(ks)
+		return fmt.Sprint(ks)
+	}
+	// 1. property names
+	pkg := c.Prog.SSA.ImportedPackage("github.com/AdguardTeam/AdGuardDNS/internal/querylog")
+	if pkg == nil || pkg.Type("jsonlEntry") == nil {
+		c.Und(rule, "querylog.jsonlEntry", token.NoPos, "type not found")
+		return
+	}
+	tags := map[string]bool{}
+	if st, ok := pkg.Type("jsonlEntry").Type().Underlying().(*types.Struct); ok {
+		for i := 0; i < st.NumFields(); i++ {
+			name, _, _ := strings.Cut(reflect.StructTag(st.Tag(i)).Get("json"), ",")
+			if name != "" && name != "-" {
+				tags[name] = true
+			}
+		}
+	}
+	c.Check(setStr(tags) == setStr(names) && len(tags) > 10, rule, "querylog.jsonlEntry: the json tags are the documented property names", pkg.Type("jsonlEntry").Pos(),
+		"tags: "+setStr(tags), "the json tags of the entry are {"+setStr(tags)+"}, doc/querylog.md documents {"+setStr(names)+"}: a consumer that reads the log by the documented names misses or misreads a property")
+	// 2. result codes and 3. protocols
+	consts := func(p *ssa.Package, typeName, prefix string) map[int64]bool {
+		vs := map[int64]bool{}
+		if p == nil {
+			return vs
+		}
+		for n, mem := range p.Members {
+			if k, ok := mem.(*ssa.NamedConst); ok && strings.HasPrefix(n, prefix) && strings.HasSuffix(k.Type().String(), typeName) {
+				vs[k.Value.Int64()] = true
+			}
+		}
+		return vs
+	}
+	rc := consts(pkg, "querylog.resultCode", "resultCode")
+	c.Check(setInt(rc) == setInt(values("f")) && len(rc) > 3, rule, "querylog.resultCode: the constants are the documented values of f", token.NoPos,
+		"values: "+setInt(rc), "the result codes are "+setInt(rc)+", doc/querylog.md documents "+setInt(values("f"))+" for f")
+	pr := consts(c.Prog.SSA.ImportedPackage("github.com/AdguardTeam/AdGuardDNS/internal/dnsserver"), "dnsserver.Protocol", "Proto")
+	c.Check(setInt(pr) == setInt(values("p")) && len(pr) > 3, rule, "dnsserver.Protocol: the constants are the documented values of p", token.NoPos,
+		"values: "+setInt(pr), "the protocol constants are "+setInt(pr)+", doc/querylog.md documents "+setInt(values("p"))+" for p")
 }
